@@ -100,6 +100,28 @@ def run(ck):
                                 inp, float(numpy.abs(h1 - h0).max()))
                 except Exception as e:
                     ck.fail("raises:diagonalize", "diagonalize / operator access raised %r" % (e,), inp)
+            # ---- the same aggregate built again (rebuild / clean + build, the other multiplicity): still the Frenkel matrix of its molecules
+            # and couplings
+            if rep % 2 == 1 and n >= 2:
+                mult2 = 3 - mult
+                how = ("rebuild", "clean+build")[(n + rep // 2) % 2]
+                try:
+                    if how == "rebuild":
+                        agg.rebuild(mult=mult2)
+                    else:
+                        agg.clean(); agg.build(mult=mult2)
+                    sig2 = reference_signatures(n, mult2)
+                    Href2, Dref2 = reference(numpy, sig2, E, J, D)
+                    H2b = numpy.array(agg.HH) / fac; D2b = numpy.array(agg.DD)
+                    ck.case(("agg-rebuilt", n, mult, how, tuple(E), str(J)), nontrivial=True, n=n, mult=mult2, units=unit)
+                    if H2b.shape != Href2.shape or numpy.abs(H2b - Href2).max() > 1e-9 * max(1.0, numpy.abs(Href2).max()):
+                        ck.fail("hamiltonian:rebuilt", "Hamiltonian after %s(mult=%d) differs from the Frenkel-exciton rule" % (how, mult2), dict(inp, history=how),
+                                float(numpy.abs(H2b - Href2).max()) if H2b.shape == Href2.shape else list(H2b.shape))
+                    if D2b.shape != Dref2.shape or numpy.abs(D2b - Dref2).max() > 1e-12 * max(1.0, numpy.abs(Dref2).max()):
+                        ck.fail("dipole-operator:rebuilt", "dipole operator after %s(mult=%d) differs from the selection rule" % (how, mult2), dict(inp, history=how))
+                    agg.rebuild(mult=mult)       # back to the multiplicity the rest of the checks refer to
+                except Exception as e:
+                    ck.fail("raises:rebuild", "%s raised %r" % (how, e), inp)
             nb = [sum(1 for s in ref_sigs if sum(s) == b) for b in range(mult + 1)]
             if list(agg.Nb) != nb or list(agg.get_Hamiltonian().rwa_indices) != [sum(nb[:b]) for b in range(mult + 1)]:
                 ck.fail("bands", "band sizes / RWA indices wrong", inp, [list(agg.Nb), list(agg.get_Hamiltonian().rwa_indices)], nb)
